@@ -1,4 +1,5 @@
 import FluteModel.Lemmas.PathMap
+import FluteModel.Spec.WriterProto
 /-
   C05 — the filesystem object writer never creates, truncates, writes or deletes anything outside the destination
   directory it was built with, for EVERY Content-Location string and EVERY answer of `url::Url::parse`.
@@ -311,16 +312,161 @@ theorem error_removes_only_own_destination (fs : FS) (cwd : RPath) (dest : Str) 
     rw [components_join dest rel hdne hrel, resolveC_append]
     rfl
 
-/-- non-vacuity of `history_confined` / a history the protocol forbids: object A at `x`, object B at `x/y`;
-    A opens (creates `/s/dest/x`), B's open fails (`x` is a file), A completes, A errors (removes nothing),
-    B errors (removes nothing), A opens again and is interrupted (removes `/s/dest/x`) -/
-example :
-    (hrun [] wdest ⟨wfs, []⟩
-      [.new [] (.ok [47, 120]), .new [] (.ok [47, 120, 47, 121]), .call 0 .open, .call 1 .open, .call 0 .complete,
-       .call 0 .error, .call 1 .error, .call 0 .open, .call 0 .interrupted]).2
-      = [.create [[115], [100, 101, 115, 116], [120]], .truncate [[115], [100, 101, 115, 116], [120]],
-         .remove [[115], [100, 101, 115, 116], [120]]] := by
-  decide
+/-! ### composition with the object-writer protocol of C09 (Spec/WriterProto.lean) -/
+
+open Flute.Spec.WriterProto in
+/-- the protocol event of a call and its result -/
+def evOf : Call → Bool → Ev
+  | .open, true => .openOk
+  | .open, false => .openErr
+  | .write, ok => .write ok
+  | .complete, _ => .complete
+  | .error, _ => .error
+  | .interrupted, _ => .interrupted
+
+/-- one writer driven through a list of calls (the filesystem threaded through): final filesystem, final writer,
+    all effects, and the protocol trace -/
+def wrun (cwd : RPath) (dest : Str) : FS → Writer → List Call → FS × Writer × List Effect × List Flute.Spec.WriterProto.Ev
+  | fs, w, [] => (fs, w, [], [])
+  | fs, w, c :: rest =>
+    let r := callWriter fs cwd dest w c
+    let r' := wrun cwd dest r.1 r.2.1 rest
+    (r'.1, r'.2.1, r.2.2.1 ++ r'.2.2.1, evOf c r.2.2.2 :: r'.2.2.2)
+
+/-- how many removals a writer in protocol state `s` may still perform -/
+def budget : Flute.Spec.WriterProto.PState → Nat
+  | .idle => 1
+  | .opened => 1
+  | _ => 0
+
+def removals (es : List Effect) : Nat := (es.filter fun e => match e with | .remove _ => true | _ => false).length
+
+open Flute.Spec.WriterProto in
+/-- **With the call sequences the receiver can issue (C09: every writer trace is a word of the protocol
+    `open (write)* (complete | error | interrupted)` / `open-failed error`)** a writer removes AT MOST ONE path in its
+    whole life - by `history_confined` / `error_removes_only_own_destination` the file its one successful `open`
+    created - and a writer whose trace is closed (`Done`) or that never opened holds no destination any more, so a
+    later `Drop` cannot remove anything.  (Protocol-violating orders are covered by `history_confined`.) -/
+theorem protocol_trace_removes_at_most_one (fs : FS) (cwd : RPath) (dest : Str) (w : Writer)
+    (hw0 : w.destination = none) (calls : List Call) (st : PState)
+    (hacc : Spec.WriterProto.run .idle (wrun cwd dest fs w calls).2.2.2 = some st) :
+    removals (wrun cwd dest fs w calls).2.2.1 ≤ 1 ∧
+    (st ≠ .opened → (wrun cwd dest fs w calls).2.1.destination = none) := by
+  -- generalised over the protocol state: R relates it to `inner.destination`
+  have key : ∀ (calls : List Call) (fs : FS) (w : Writer) (s st : PState),
+      (s = .opened ↔ w.destination ≠ none) →
+      Spec.WriterProto.run s (wrun cwd dest fs w calls).2.2.2 = some st →
+      removals (wrun cwd dest fs w calls).2.2.1 ≤ budget s ∧
+      (st = .opened ↔ (wrun cwd dest fs w calls).2.1.destination ≠ none) := by
+    intro calls
+    induction calls with
+    | nil =>
+      intro fs w s st hR h
+      simp only [wrun, Spec.WriterProto.run, Option.some.injEq] at h
+      subst h
+      exact ⟨by simp [wrun, removals], by simpa [wrun] using hR⟩
+    | cons c rest ih =>
+      intro fs w s st hR h
+      simp only [wrun, Spec.WriterProto.run] at h ⊢
+      cases hs : step s (evOf c (callWriter fs cwd dest w c).2.2.2) with
+      | none => simp [hs] at h
+      | some s1 =>
+        simp only [hs] at h
+        -- one step: new relation, removals of this call
+        have hstep : (s1 = .opened ↔ (callWriter fs cwd dest w c).2.1.destination ≠ none) ∧
+            removals (callWriter fs cwd dest w c).2.2.1 + budget s1 ≤ budget s := by
+          cases c with
+          | write =>
+            have : s = .opened ∧ s1 = .opened := by
+              cases s <;> simp_all [step, evOf, callWriter]
+            obtain ⟨h1, h2⟩ := this
+            subst h1; subst h2
+            exact ⟨by simpa [callWriter] using hR, by simp [callWriter, removals, budget]⟩
+          | complete =>
+            have : s = .opened ∧ s1 = .done := by
+              cases s <;> simp_all [step, evOf, callWriter]
+            obtain ⟨h1, h2⟩ := this
+            subst h1; subst h2
+            exact ⟨by simp [callWriter], by simp [callWriter, removals, budget]⟩
+          | «open» =>
+            -- accepted only from Idle, where destination = none
+            have hsi : s = .idle := by
+              cases s <;> cases hb : (callWriter fs cwd dest w .open).2.2.2 <;> simp_all [step, evOf]
+            subst hsi
+            have hwd : w.destination = none := by
+              cases hd : w.destination with
+              | none => rfl
+              | some x => exact absurd (hR.mpr (by simp [hd])) (by decide)
+            simp only [callWriter] at hs ⊢
+            cases hop : (PathMap.open fs cwd dest w.loc w.ans).opened with
+            | none =>
+              simp only [hop, evOf, step, Option.some.injEq] at hs ⊢
+              subst hs
+              refine ⟨by simp [hwd], ?_⟩
+              have : removals ((PathMap.open fs cwd dest w.loc w.ans).dirs.map Effect.mkdir) = 0 := by
+                simp [removals, List.filter_map]
+              simp [openEffects, hop, this, budget]
+            | some v =>
+              obtain ⟨dst, f, fresh⟩ := v
+              simp only [hop, evOf, step, Option.some.injEq] at hs ⊢
+              subst hs
+              refine ⟨by simp, ?_⟩
+              have h1 : removals ((PathMap.open fs cwd dest w.loc w.ans).dirs.map Effect.mkdir) = 0 := by
+                simp [removals, List.filter_map]
+              have h2 : removals (openEffects (PathMap.open fs cwd dest w.loc w.ans)) = 0 := by
+                simp only [openEffects, hop]
+                unfold removals at h1 ⊢
+                rw [List.filter_append, List.length_append, h1]
+                cases fresh <;> rfl
+              rw [h2]; simp [budget]
+          | error =>
+            have hs1 : s1 = .done ∧ (s = .opened ∨ s = .failed) := by
+              cases s <;> simp_all [step, evOf]
+            obtain ⟨h1, h2⟩ := hs1
+            subst h1
+            refine ⟨by
+              have := (calls_without_destination_do_nothing fs cwd dest w).2.2.2.2.2.1
+              simp [this], ?_⟩
+            rcases h2 with h2 | h2
+            · subst h2
+              simp only [callWriter]
+              cases w.destination with
+              | none => simp [removals, budget]
+              | some dst => simp only []; cases unlink fs cwd dst <;> simp [removals, budget]
+            · subst h2
+              have hwd : w.destination = none := by
+                cases hd : w.destination with
+                | none => rfl
+                | some x => exact absurd (hR.mpr (by simp [hd])) (by decide)
+              simp [callWriter, hwd, removals, budget]
+          | interrupted =>
+            have hs1 : s1 = .done ∧ s = .opened := by
+              cases s <;> simp_all [step, evOf]
+            obtain ⟨h1, h2⟩ := hs1
+            subst h1; subst h2
+            refine ⟨by
+              have := (calls_without_destination_do_nothing fs cwd dest w).2.2.2.2.2.2
+              simp [this], ?_⟩
+            simp only [callWriter]
+            cases w.destination with
+            | none => simp [removals, budget]
+            | some dst => simp only []; cases unlink fs cwd dst <;> simp [removals, budget]
+        obtain ⟨hR1, hcount⟩ := hstep
+        obtain ⟨ih1, ih2⟩ := ih _ _ s1 st hR1 h
+        refine ⟨?_, ih2⟩
+        have : removals ((callWriter fs cwd dest w c).2.2.1 ++
+            (wrun cwd dest (callWriter fs cwd dest w c).1 (callWriter fs cwd dest w c).2.1 rest).2.2.1) =
+            removals (callWriter fs cwd dest w c).2.2.1 +
+            removals (wrun cwd dest (callWriter fs cwd dest w c).1 (callWriter fs cwd dest w c).2.1 rest).2.2.1 := by
+          simp [removals, List.filter_append]
+        rw [this]
+        omega
+  obtain ⟨h1, h2⟩ := key calls fs w .idle st (by simp [hw0]) hacc
+  refine ⟨by simpa [budget] using h1, ?_⟩
+  intro hne
+  cases hd : (wrun cwd dest fs w calls).2.1.destination with
+  | none => rfl
+  | some x => exact absurd (h2.mpr (by simp [hd])) hne
 
 /-! ### the defect (D9) on the code before the repair -/
 
@@ -390,6 +536,17 @@ example :
     (PathMap.open (PathMap.open wfs [] wdest [] (.ok [47, 104, 101, 108, 108, 111])).fs [] wdest []
         (.ok [47, 104, 101, 108, 108, 111])).opened.map (·.2)
       = some ([[115], [100, 101, 115, 116], [104, 101, 108, 108, 111]], false) := by
+  decide
+
+/-- non-vacuity of `history_confined` / a history the protocol forbids: object A at `x`, object B at `x/y`;
+    A opens (creates `/s/dest/x`), B's open fails (`x` is a file), A completes, A errors (removes nothing),
+    B errors (removes nothing), A opens again and is interrupted (removes `/s/dest/x`) -/
+example :
+    (hrun [] wdest ⟨wfs, []⟩
+      [.new [] (.ok [47, 120]), .new [] (.ok [47, 120, 47, 121]), .call 0 .open, .call 1 .open, .call 0 .complete,
+       .call 0 .error, .call 1 .error, .call 0 .open, .call 0 .interrupted]).2
+      = [.create [[115], [100, 101, 115, 116], [120]], .truncate [[115], [100, 101, 115, 116], [120]],
+         .remove [[115], [100, 101, 115, 116], [120]]] := by
   decide
 
 /-- `mapLoc` is not constantly `none`, and not constantly `some` -/
